@@ -25,12 +25,12 @@ theorem display_roundtrip_partial (o : Oracle) (sf : F64 → Str) (e : Expr) (h 
 /-- printing never changes grouping or operators: the printed tokens render the tree under the table, at every
     level the printed form can stand at (bitwise nodes bare, `-(…)`/`!(…)` unary, everything else atomic) -/
 theorem printed_form_is_a_rendering (o : Oracle) (sf : F64 → Str) (e : Expr) (h : Printable o sf e) :
-    ∀ k, k ≤ dlvl e → R o sf k e (dispToks sf e) := disp_sound.1 e h
+    ∀ k, k ≤ dlvl e → R o k e (dispToks sf e) := disp_sound.1 e h
 
 /-- … and of no other tree -/
 theorem printed_form_is_unambiguous (o : Oracle) (sf : F64 → Str) (e e' : Expr) (h : Printable o sf e)
-    (h' : R o sf 0 e' (dispToks sf e)) : e' = e :=
-  C07.derivation_unique o sf e' e _ h' (disp_sound.1 e h 0 (Nat.zero_le _))
+    (h' : R o 0 e' (dispToks sf e)) : e' = e :=
+  C07.derivation_unique o e' e _ h' (disp_sound.1 e h 0 (Nat.zero_le _))
 
 /-- consequently an expression and the re-parsed rendering evaluate identically, on every input, in every environment -/
 theorem rendering_evaluates_identically (o : Oracle) (sf : F64 → Str) (e e' : Expr) (h : Printable o sf e)
